@@ -110,7 +110,7 @@ def main():
         ],
         'checks': checks,
         'not_applicable': na,
-        'notes': 'All checks run /repo\'s working tree with /venv/bin/python (SPECTRUM_SRC overrides the tree for self-tests). Exit 0 held / 1 violated / 2 inconclusive. Known findings: /verif/known_findings.json.',
+        'notes': 'All checks run /repo\'s working tree with /venv/bin/python (SPECTRUM_SRC overrides the tree for self-tests); the C helper is rebuilt from src/cpp/mydpss.c on every run that touches it. Every workload runs in supervised child processes (quick: 1, thorough: 16 shards + the repository tests under the property\'s contracts), so a crash of the native code is reported as a VIOLATION with the case that was running. Exit 0 held / 1 violated (VIOLATION lines, replay files under /verif/replays) / 2 inconclusive (a deciding monitor was never reached, a lane timed out). Open findings are listed in /verif/known_findings.json and printed as KNOWN-FINDING lines; each has a witness case in the quick tier. Seeded changes and which check catches them: /verif/seeded and DESIGN.md section 12.5.',
     }
     with open(os.path.join(HERE, 'MANIFEST.json'), 'w') as f:
         json.dump(m, f, indent=1)
